@@ -29,12 +29,16 @@ def compress(text):
 
 
 def enumerate_cases(tier, d):
-    cfg = "Diag_quick.cfg" if tier == "quick" else "Diag_thorough.cfg"
-    res = run_tlc("Diag.tla", cfg, os.path.join(d, "tlc_diag"), timeout=1800)
-    if res.timed_out or not res.ok:
-        raise ToolError("TLC failed enumerating Diag.tla:\n%s" % res.violation)
-    cases = [json.loads(ln[5:]) for ln in res.printed if ln.startswith("CASE ")]
-    states, trans = res.distinct, res.generated
+    cases = []
+    states = trans = 0
+    # two exhaustive configurations: wide (every fault incl. host x expression, shallow) and deep (named faults, nested)
+    for cfg in (("Diag_quick.cfg", "Diag_quick_deep.cfg") if tier == "quick" else ("Diag_thorough.cfg", "Diag_thorough_deep.cfg")):
+        res = run_tlc("Diag.tla", cfg, os.path.join(d, "tlc_diag"), timeout=3000)
+        if res.timed_out or not res.ok:
+            raise ToolError("TLC failed enumerating Diag.tla (%s):\n%s" % (cfg, res.violation))
+        cases += [json.loads(ln[5:]) for ln in res.printed if ln.startswith("CASE ")]
+        states += res.distinct
+        trans += res.generated
     num = 1500 if tier == "quick" else 40000
     sim = run_tlc("Diag.tla", "Diag_sim.cfg", os.path.join(d, "tlc_diag_sim"), timeout=3000, workers=4,
                   simulate="num=%d" % num, extra=["-depth", "8", "-seed", str(seed())])
@@ -129,7 +133,8 @@ def run(tier, replay):
     for i, ((src, c), b, resp) in enumerate(zip(allcases, built, resps)):
         v, what = verdicts[i + 1]
         bystage[c["stage"]] = bystage.get(c["stage"], 0) + 1
-        byfault[c["fault"]] = byfault.get(c["fault"], 0) + 1
+        fk = c["fault"].split("|")[0]
+        byfault[fk] = byfault.get(fk, 0) + 1
         if v == "AGREE":
             continue
         if what.startswith("SPECBUG"):
@@ -148,10 +153,12 @@ def run(tier, replay):
                                    % (c["stage"], c["fams"])}, feats, name=what.split()[0])
     coverage = {
         "evaluations": len(recs), "distinct_nontrivial": len({b["text"] for b in built}),
-        "rule": "TLC enumerates Diag.tla: %d cases exhaustively (all %d faults x call depth x innermost block kind x joined/plain "
-                "x 4 line-ending conventions) and %d sampled deep histories (call depth <= 3, nesting <= 3, all layout dimensions, "
-                "prior handled error); non-trivial = every case carries a fault the real code must report; distinct by text"
-                % (len(cases), len(c11.FAULTS), len(simcases)),
+        "rule": "TLC enumerates Diag.tla: %d cases exhaustively (wide: all %d faults = %d named + %d host statements x %d fault "
+                "expressions, call depth <= 1; deep: named faults x call depth x innermost block kind; both x joined/plain x 4 "
+                "line-ending conventions) and %d sampled deep histories (call depth <= 3, nesting <= 3, all layout dimensions, "
+                "already-returned helper calls, prior handled error); non-trivial = every case carries a fault the real code must "
+                "report; distinct by text"
+                % (len(cases), len(c11.FAULTS) + len(c11.HOSTS) * len(c11.EXPRS), len(c11.FAULTS), len(c11.HOSTS), len(c11.EXPRS), len(simcases)),
         "samples": [{"case": allcases[i][1], "observed": recs[i]["obs"]} for i in range(0, len(recs), max(1, len(recs) // 3))][:3],
         "states": states, "transitions": trans, "traces_validated_against_impl": len(recs),
         "by_stage": bystage, "by_fault": byfault, "mismatch_kinds": bywhat,
